@@ -416,6 +416,73 @@ def _guard_allows(test_txt, pol, key):
     return True
 
 
+def rule_r6(rep, repo):
+    """The order list is generated in the documented Horton order: the statements that fill the row
+    accumulator are evaluated into a symbolic stream term (gridlint/streams.py) and compared, as
+    terms, with the documented order -- for every value of `order` at once.
+      pure         (l,0), then (l,m), (l,-m) for m = 1..l
+      pure-radial  for l = 0..n-1: (n,l,0), then (n,l,m), (n,l,-m) for m = 1..l
+      cartesian    n_x descending from n, n_y descending from n - n_x, n_z the rest (2-D, 1-D alike)"""
+    import sympy as sp
+    from gridlint import streams as st
+    f = repo.module_func("utils", "generate_orders_horton_order")
+    body = strip_docstring(f.node.body)
+    d = e4.string_dispatch(body, "type_ord")
+    if d is None:
+        raise AnalysisError("unrecognised idiom: generate_orders_horton_order has no type_ord dispatch")
+    chain, _, _ = d
+    # statements before the dispatch that initialise the accumulator
+    n_ = sp.Symbol("order")
+    a_, b_ = sp.Symbol("a"), sp.Symbol("b")
+
+    def R(*e):
+        return ("row", tuple(sp.expand(sp.sympify(x)) for x in e))
+    spec = {
+        "pure": ("seq", (R(n_, 0), ("for", a_, (1, n_ + 1, 1), ("seq", (R(n_, a_), R(n_, -a_)))))),
+        "pure-radial": ("for", a_, (0, n_, 1), ("seq", (R(n_, a_, 0), ("for", b_, (1, a_ + 1, 1),
+                                                                       ("seq", (R(n_, a_, b_), R(n_, a_, -b_))))))),
+        ("cartesian", 3): ("for", a_, (n_, -1, -1), ("for", b_, (n_ - a_, -1, -1), R(a_, b_, n_ - a_ - b_))),
+        ("cartesian", 2): ("for", a_, (n_, -1, -1), R(a_, n_ - a_)),
+        ("cartesian", 1): R(n_),
+    }
+    # the accumulator: the name converted by np.array at the end, or the list initialised before the chain
+    acc = None
+    for s_ in ast.walk(f.node):
+        if isinstance(s_, ast.Call) and norm(s_.func) in ("np.array", "np.asarray") and s_.args and \
+                isinstance(s_.args[0], ast.Name) and any(k.arg == "dtype" for k in s_.keywords):
+            acc = s_.args[0].id
+    if acc is None:
+        raise AnalysisError("unrecognised idiom: no row accumulator converted by np.array(..., dtype=int)")
+    prefix = [s_ for s_ in body if isinstance(s_, ast.Assign) and norm(s_.targets[0]) == acc
+              and isinstance(s_.value, ast.List) and not s_.value.elts]
+    jobs = []
+    for key, bbody in chain:
+        if key == "cartesian":
+            dd = _dim_dispatch(bbody)
+            if dd is None:
+                raise AnalysisError("unrecognised idiom: cartesian branch has no `dim == d` chain")
+            for dv, b2 in dd:
+                if ("cartesian", dv) in spec:
+                    jobs.append((f"cartesian,dim={dv}", b2, spec[("cartesian", dv)]))
+        elif key in spec:
+            jobs.append((key, bbody, spec[key]))
+    for label, bbody, want in jobs:
+        cons = f"utils.generate_orders_horton_order[{label}]"
+        where = repo.rel("utils", bbody[0])
+        try:
+            got = st.stream_of(prefix + list(bbody), acc)
+        except st.Undecided as e:
+            raise AnalysisError(f"order stream of branch {label}: {e}") from e
+        want_n = st.alpha(st.normalise(want, {n_}))
+        if got == want_n:
+            rep.ok("R6.horton-order", cons, where, st.show(got)[:120])
+        else:
+            rep.violation("R6.horton-order", "utils.generate_orders_horton_order", label,
+                          f"the rows are generated as {st.show(got)[:170]} but the documented Horton order is "
+                          f"{st.show(want_n)[:170]}: the order list mis-names the rows of the moments", where)
+    rep.floor("order streams compared with the documented order", len(jobs), 5)
+
+
 def run(tier="quick", root="/repo", evidence_dir=None, quiet=False):
     rep = Report(PROP, tier, root, EXPLANATION, RULE, assumptions=[
         "the installed NumPy/SciPy/SymPy are the versions the package runs against (the repository's own "
@@ -428,6 +495,7 @@ def run(tier="quick", root="/repo", evidence_dir=None, quiet=False):
         rep.attempt(rule_r3, rep, repo, gen_keys)
     rep.attempt(rule_r4, rep, repo)
     rep.attempt(rule_r5, rep, repo, None)
+    rep.attempt(rule_r6, rep, repo)
     import numpy
     import scipy
     rep.extra.update({"numpy": numpy.__version__, "scipy": scipy.__version__,
